@@ -754,6 +754,23 @@ func c20Grid() error {
 	}))
 	defer closeServer(wrapped)
 	n := 0
+	// One request at a time against thirty parked goroutines takes milliseconds. No answer
+	// within 60 s is confirmed once with a longer limit; a second silence is the handler not
+	// answering, not a busy machine.
+	sequential := func(mk func() *http.Request, what string) (*http.Response, error) {
+		resp, err := client.Do(mk())
+		if err != nil && timeoutIsHarness(err) != "" {
+			statsFor("C20").note("a sequential request got no answer within 60s; retrying with 240s")
+			resp, err = (&http.Client{Timeout: 240 * time.Second}).Do(mk())
+			if err != nil && timeoutIsHarness(err) != "" {
+				return nil, fmt.Errorf("%s (request %d of a sequential session, after %d answered ones) got no answer within 60 s and again within 240 s", what, n+1, n)
+			}
+		}
+		if err != nil {
+			return nil, fmt.Errorf("%s: %v", what, err)
+		}
+		return resp, nil
+	}
 	for i, ov := range []c20Req{
 		{Method: "GET", Similarity: sp("bogus")}, {Method: "GET", Augment: sp("7")}, {Method: "GET", Maxmem: sp("abc")},
 		{Method: "GET", Similarity: sp("anyvalue"), Augment: sp("0")}, {Method: "GET", Augment: sp("0"), Maxmem: sp("2097152")},
@@ -772,11 +789,13 @@ func c20Grid() error {
 				u.Maxmem = nil
 			}
 		}
-		req, _ := http.NewRequest("GET", wrapped.URL+"/debug?"+u.query(), nil)
-		req.Header.Set("X-Override", ov.query())
-		resp, err := client.Do(req)
+		resp, err := sequential(func() *http.Request {
+			req, _ := http.NewRequest("GET", wrapped.URL+"/debug?"+u.query(), nil)
+			req.Header.Set("X-Override", ov.query())
+			return req
+		}, fmt.Sprintf("wrapped GET %d ?%s overridden with ?%s", i, u.query(), ov.query()))
 		if err != nil {
-			return fmt.Errorf("%swrapped GET %d: %v", timeoutIsHarness(err), i, err)
+			return err
 		}
 		body, _ := io.ReadAll(resp.Body)
 		resp.Body.Close()
@@ -789,19 +808,12 @@ func c20Grid() error {
 		for _, au := range []string{"-", "", "0", "1", "2", "x", "-1", "true", "01", "+1"} {
 			for _, si := range []string{"-", "", "anyvalue", "exactflags", "alike"} {
 				r := c20Req{Method: "GET", Maxmem: opt(mm), Augment: opt(au), Similarity: opt(si)}
-				resp, err := client.Get(srv.URL + "/debug?" + r.query())
-				if err != nil && timeoutIsHarness(err) != "" {
-					// One request at a time against thirty parked goroutines takes milliseconds.
-					// No answer within 60 s is confirmed once with a longer limit; a second
-					// silence is the handler not answering, not a busy machine.
-					statsFor("C20").note("a sequential request got no answer within 60s; retrying with 240s")
-					resp, err = (&http.Client{Timeout: 240 * time.Second}).Get(srv.URL + "/debug?" + r.query())
-					if err != nil && timeoutIsHarness(err) != "" {
-						return fmt.Errorf("GET ?%s (request %d of a sequential session, after %d answered ones) got no answer within 60 s and again within 240 s", r.query(), n+1, n)
-					}
-				}
+				resp, err := sequential(func() *http.Request {
+					req, _ := http.NewRequest("GET", srv.URL+"/debug?"+r.query(), nil)
+					return req
+				}, "GET ?"+r.query())
 				if err != nil {
-					return fmt.Errorf("GET ?%s: %v", r.query(), err)
+					return err
 				}
 				body, rerr := io.ReadAll(resp.Body)
 				resp.Body.Close()
